@@ -82,8 +82,8 @@ CLAIMED['C09'] = dict(
    technique="Coq proof by invariant (parser stage total) + outcome-class correspondence on malformed SMILES + known-finding classifiers",
    design_ref="5/C09")
 CLAIMED['C10'] = dict(
-   text="Proof (partial, props/C10.v): ring/branch symbols carry suffix 1..3 iff span-1 / length-1 < 16^3 and their Q symbols decode back. Per input: every emitted symbol is judged by the extracted symbol_in_grammar under the table, the decoder must accept, equivalent bracket spellings must give the same string, re-encoding the decoded SMILES must reproduce the string; atom-field extremes (every element, charges to +-100, H0-H9, isotopes with leading zeros) and spans at the 16^k boundaries.",
-   technique="Coq proof of the index-suffix facts + extracted grammar-membership oracle + metamorphic oracles on the implementation + exact correspondence",
+   text="Kernel-checked for ALL SMILES, ALL accepted tables, both values of strict and attribute (props/C10.v: C10_encoder_output_decodes_partial and its _checkable_ form; proofs/EncShape.v, EncTokens.v, EncAtoms.v, EncGood.v, EncDecodes.v): whatever string the encoder model returns tokenises back into the symbols it emitted, each is a symbol the derivation accepts (the atom symbol is read back as the very atom it was printed from), and decoder() returns - under three hypotheses that the harness evaluates on every input through the extracted enc_hyp: ring/branch suffixes 1..3 (= spans and lengths below 16^3, C10_suffix_partial), no atom with more explicit H than its capacity (guaranteed by strict=True in the implementation, but 'bond counts never negative' is not proved in the model: hence partial), input shorter than 10^4300 characters. Standardised: symbol <-> atom is a bijection on the atoms the encoder prints (C10_symbol_determines_atom, C10_printed_symbol_reads_back) and the named spelling pairs ([E+]/[E+1], [E++]/[E+2], [EH]/[EH1], [E]/[EH0], ...) are read as the same atom for EVERY element, with and without isotope (C10_standard_spellings). Ring/branch suffix 1..3 iff span-1 / length-1 < 16^3; Q symbols decode back. NOT proved: stability under re-encoding - decided per input: re-encoding the decoded SMILES must reproduce the string; every emitted symbol is also judged by the extracted symbol_in_grammar; atom-field extremes (every element, charges to +-100, H0-H9 and two-digit H under big tables, isotopes with leading zeros) and spans at the 16^k boundaries.",
+   technique="Coq proof (invariants of the SMILES reader, kekulize and the encoder walk; printer/grammar round trip of atom symbols; finite sweeps of index/branch/ring symbols against the generated tables) + extracted hypothesis evaluation per input + metamorphic oracles on the implementation + exact correspondence",
    design_ref="5/C10")
 CLAIMED['C17'] = dict(
    category='proof',
